@@ -143,15 +143,49 @@ type permObs struct {
 	refused  int
 	features map[string]bool
 	lastSeq  map[int]map[string]int // session -> topic name as seen -> last data seq received live
+	// tainted: routes where a {set} was served for a session which is not attached while the topic
+	// was loaded: the store is updated behind the cache's back (known C08 finding
+	// offline-set-while-loaded). Only there a cache/store disagreement is excused.
+	tainted map[string]bool
 }
 
 func newPermObs() *permObs {
-	return &permObs{att: newWAttach(), features: map[string]bool{}, lastSeq: map[int]map[string]int{}}
+	return &permObs{att: newWAttach(), features: map[string]bool{}, lastSeq: map[int]map[string]int{}, tainted: map[string]bool{}}
+}
+
+// noteTaint must be called by After for every step (before the attachment model is updated).
+func (o *permObs) noteTaint(st *wStep) {
+	steps := []*wStep{st}
+	if st.Op.K == "par" {
+		steps = st.Sub
+	}
+	for _, s := range steps {
+		if s.Op.K == "set" && !s.Skipped && s.Route != "" {
+			if _, attached := o.preAtt[s.Sess][s.Route]; !attached && o.preLive[s.Route] != nil {
+				o.tainted[s.Route] = true
+			}
+			// {set sub user=X} where X is cached as a channel reader: the server edits the reader's
+			// cached record and stores nothing (known C08 finding, chan-reader family)
+			if lt := o.preLive[s.Route]; lt != nil && s.Op.A == "given" && s.Op.U >= 0 && s.Op.U < len(wCur.users) {
+				if pud, ok := lt.PerUser[wCur.users[s.Op.U].uid]; ok && pud.isChan {
+					o.tainted[s.Route] = true
+				}
+			}
+		}
+	}
+	if st.Op.K == "restart" || st.Crashed {
+		o.tainted = map[string]bool{}
+	}
 }
 
 func (o *permObs) Before(w *wWorld, op *wOp) {
 	o.pre = mem.A.Snapshot()
 	o.preLive = w.liveTopics()
+	for r := range o.tainted {
+		if o.preLive[r] == nil {
+			delete(o.tainted, r) // unloaded: the next load reads the store
+		}
+	}
 	o.preAtt = map[int]map[string]wAtt{}
 	for s, m := range o.att.att {
 		o.preAtt[s] = map[string]wAtt{}
@@ -192,10 +226,18 @@ func (o *permObs) agreed(route string, uid types.Uid, chanReader bool) (mode typ
 	if cok && pud.deleted {
 		cok = false
 	}
+	if chanReader && !cok {
+		return sm, sok, true // channel readers are cached only while attached: the store row speaks
+	}
 	cm := pud.modeWant & pud.modeGiven
 	if cok != sok || (cok && cm != sm) {
-		o.disagree++
-		return 0, false, false
+		if o.tainted[route] {
+			o.disagree++
+			return 0, false, false
+		}
+		// Not a known divergence: the acknowledged (stored) permissions are the truth. (A cached
+		// channel-reader record of a user asked about as a full subscriber lands here too.)
+		return sm, sok, true
 	}
 	return sm, sok, true
 }
@@ -249,7 +291,7 @@ func (o *c03Obs) predict(w *wWorld, s *wStep) (accept bool, decided bool, why st
 	if cat == "me" || cat == "fnd" {
 		return false, true, "self/search topic"
 	}
-	if s.Op.Obo > 0 && w.users[s.Login].level != auth.LevelRoot {
+	if s.Op.Obo > 0 && (s.Login < 0 || w.users[s.Login].level != auth.LevelRoot) {
 		return false, true, "on-behalf-of by a non-root session"
 	}
 	at, attached := o.preAtt[s.Sess][route]
@@ -284,6 +326,7 @@ func (o *c03Obs) predict(w *wWorld, s *wStep) (accept bool, decided bool, why st
 
 func (o *c03Obs) After(w *wWorld, st *wStep) *kit.Viol {
 	defer o.att.update(w, st)
+	defer o.noteTaint(st)
 	if st.Op.K != "pub" || st.Skipped {
 		return nil
 	}
@@ -391,6 +434,7 @@ type c02Obs struct {
 
 func (o *c02Obs) After(w *wWorld, st *wStep) *kit.Viol {
 	defer o.att.update(w, st)
+	defer o.noteTaint(st)
 	// per-session ordering of live copies (keyed by the routable topic: a root session attached on
 	// behalf of several users may see two different P2P topics under one name)
 	if st.Op.K == "pub" && !st.Skipped {
